@@ -53,6 +53,13 @@ CHECKS = {
         "Trusted: fixpoint model and harness nodes in harness/cnode.py; <=3 components (<=2 slots per side), offsets {0,1,2}; the separate helper-layer search of single connect calls with scripted peers described in DESIGN.md is not built (the per-call rule is checked on every call inside the compositions instead).",
         "DESIGN.md section 3 (engine B) and section 4, C06",
     ),
+    "C07": (
+        "exploration",
+        "bounded-exhaustive enumeration of producer/consumer metadata states (complete sub-products over set/unset time, grid kinds, units, mask kinds, extra keys; one or two consumers; direct, Scale and metadata-rewriting adapters; a relay with transfer rules; all listing orders) through the real Composition.connect against an independent agreement predicate",
+        "Each sub-product is enumerated completely: where the ends agree on a direct/Scale link connect() must succeed with a complete input info that describes the delivered locations, has convertible units and carries the other side's values for unset fields in both directions; where they conflict it must raise FinamMetaDataError with no data at any consumer; any other exception class is reported.",
+        "Trusted: the agreement predicate in checks/c07.py. The five-field full product is not crossed (sub-products: grid x mask, time x units x extra key, grid x units x time). Cases the statement does not classify (producer mask unset, NONE vs empty mask, order-dependent fan-out fills) accept either outcome.",
+        "DESIGN.md section 4, C07",
+    ),
     "C08": (
         "model_checking",
         "explicit-state BFS to a fixpoint over all push/pull interleavings on a direct link (states modulo time translation, unlimited-history reference) plus exhaustive product payload form x grid kind x unit pair and all re-publication forms on real Output/Input objects",
